@@ -104,23 +104,32 @@ def gen_cases(tier, seed):
         if tier != "quick" and rng.random() < 0.3:
             n = rng.choice([rng.randrange(0, 70000), rng.randrange(0, 2 * MB)])
         cases.append({"kind": "e2e", "content": KINDS[i % len(KINDS)] if n else "zeros", "size": n, "cseed": rng.randrange(1 << 30), "opts": row})
-    # inputs around the 4 MB job size (MT) and the 8 MB legacy block: cheap levels, every worker count
-    nbig = {"quick": 6, "search": 10, "thorough": 40}[tier]
-    bigs = [4 * MB + 1, 8 * MB, 4 * MB, 8 * MB + 1, 4 * MB - 1, 8 * MB - 1] + BIG_SIZES
+    # inputs around the 4 MB job size (MT) and the 8 MB legacy block: cheap levels, every worker count.
+    # The first rows are fixed shapes (each aims at one mechanism), the rest is drawn.
+    fixed = [
+        (8 * MB + 70001, "text", {"comp": "mt", "mode": "-BD", "legacy": False}),      # 3 jobs, 64 KB prefix chain
+        (4 * MB + 1, "mixed", {"comp": "mt", "mode": "-BI", "legacy": False, "bx": True}),
+        (8 * MB + 1, "text", {"comp": "mt", "legacy": True}),                         # 2 legacy blocks
+        (4 * MB, "zerorich", {"comp": "st", "legacy": False, "bs": "-B7"}),            # exactly one ST block, no shortcut
+        (12 * MB + 5, "text", {"comp": "mt", "mode": "-BD", "legacy": False, "dict": 65536, "bs": "-B4"}),
+        (4 * MB, "random", {"comp": "mt", "legacy": False, "csize": True}),            # exactly one job, no shortcut
+        (4 * MB - 1, "text", {"comp": "mt", "mode": "-BD", "legacy": False}),          # largest single-pass input
+        (8 * MB, "zerorich", {"comp": "st", "mode": "-BD", "legacy": False, "bs": "-B6"}),
+        (16 * MB + 1, "text", {"comp": "st", "legacy": True}),                        # 3 legacy blocks
+        (8 * MB, "text", {"comp": "mt", "mode": "-BD", "legacy": False, "bs": "-B5", "bx": True}),
+    ]
+    nbig = {"quick": 8, "search": 12, "thorough": 50}[tier]
     for i in range(nbig):
         row = {k: rng.choice(v) for k, v in DIMS.items()}
         row["level"] = rng.choice([None, "-1", "-3", "--fast=3"] + (["-9", "-12"] if tier == "thorough" else []))
-        row["comp"] = "mt" if i % 3 != 2 else "st"
-        if i % 2 == 0:
-            row["mode"] = "-BD"                       # linked blocks: 64 KB prefix carried across jobs
-        if i == 1:
-            row["legacy"] = True
-        elif i < 4:
-            row["legacy"] = False
-        n = bigs[i % len(bigs)]
-        if row["legacy"] and i == 1:
-            n = 8 * MB + 1
-        cases.append({"kind": "e2e", "content": ["text", "zerorich", "mixed", "random"][i % 4], "size": n, "cseed": rng.randrange(1 << 30), "opts": row, "big": True})
+        if i < len(fixed):
+            n, kind, force = fixed[i]
+            row.update(force)
+        else:
+            n, kind = rng.choice(BIG_SIZES), rng.choice(["text", "zerorich", "mixed", "random"])
+            if i % 2 == 0:
+                row["mode"] = "-BD"
+        cases.append({"kind": "e2e", "content": kind, "size": n, "cseed": rng.randrange(1 << 30), "opts": row, "big": True})
     # -m : several files through one set of compression resources
     for i in range({"quick": 3, "search": 6, "thorough": 20}[tier]):
         row = {k: rng.choice(v) for k, v in DIMS.items()}
@@ -550,36 +559,7 @@ def sparse_one(st, rng, wd, res, big=False):
         fail(res, "prop_fail", "LZ4IO_fwriteSparse driver exits %d: %s" % (rc, err[-200:]), det)
         return
     real = parse_trace(rd(tf))
-    # model, call by call
-    model = []
-    skips = 0
-    first = True
-    nz_skipped = False
-    for fi, bufs in enumerate(frames):
-        if fi > 0:
-            r = cli.ask("fwend", str(skips))
-            model += ops_of(r); skips = 0
-        for b in bufs:
-            if first and ov0:
-                skips = ov0
-            first = False
-            r = cli.ask("fws", str(use_stdout), str(support), str(skips), vlib.hx(b))
-            res["evals"] += 1
-            if r == "fuel":
-                fail(res, "corr_fail", "model ran out of fuel", det); return
-            s2, ops = r.split(" ")
-            skips = int(s2)
-            if skips > 0:
-                nz_skipped = True
-            model += ops_of(ops) + [("R", skips)]
-    model += ops_of(cli.ask("fwend", str(skips)))
-    realc = [(k, v if k != "W" else (len(v), hashlib.md5(v).hexdigest())) for k, v in real]
-    if realc != model:
-        i = next((i for i in range(min(len(realc), len(model))) if realc[i] != model[i]), min(len(realc), len(model)))
-        fail(res, "corr_fail", "sparse writer: call trace differs at call %d: code %s, model %s" %
-             (i, realc[i] if i < len(realc) else "end", model[i] if i < len(model) else "end"), det)
-        return
-    # file image: real == plain concatenation (the property) == interpretation of the trace under the POSIX file model
+    # 1. the property on the real code: file image == plain concatenation
     total = b"".join(b for bufs in frames for b in bufs)
     head = ov0 if sparse_mode else 0
     size = os.path.getsize(of)
@@ -590,7 +570,36 @@ def sparse_one(st, rng, wd, res, big=False):
             fail(res, "prop_fail", "LZ4IO_fwriteSparse*/fwriteSparseEnd left a file image different from the plain concatenation: size %d, expected %d" %
                  (size, head + len(total)), det)
             return
-        # POSIX interpretation of the model's trace
+        # 2. model, call by call: same fseek/fwrite trace and returned storedSkips
+        model = []
+        skips = 0
+        first = True
+        nz_skipped = False
+        for fi, bufs in enumerate(frames):
+            if fi > 0:
+                r = cli.ask("fwend", str(skips))
+                model += ops_of(r); skips = 0
+            for b in bufs:
+                if first and ov0:
+                    skips = ov0
+                first = False
+                r = cli.ask("fws", str(use_stdout), str(support), str(skips), vlib.hx(b))
+                res["evals"] += 1
+                if r == "fuel":
+                    fail(res, "corr_fail", "model ran out of fuel", det); return
+                s2, ops = r.split(" ")
+                skips = int(s2)
+                if skips > 0:
+                    nz_skipped = True
+                model += ops_of(ops) + [("R", skips)]
+        model += ops_of(cli.ask("fwend", str(skips)))
+        realc = [(k, v if k != "W" else (len(v), hashlib.md5(v).hexdigest())) for k, v in real]
+        if realc != model:
+            i = next((i for i in range(min(len(realc), len(model))) if realc[i] != model[i]), min(len(realc), len(model)))
+            fail(res, "corr_fail", "sparse writer: call trace differs at call %d: code %s, model %s" %
+                 (i, realc[i] if i < len(realc) else "end", model[i] if i < len(model) else "end"), det)
+            return
+        # 3. POSIX interpretation of the trace (seek beyond EOF then write = zero gap) gives the real image
         pos, end, okm = 0, 0, True
         for k, v in real:
             if k == "S":
@@ -651,13 +660,13 @@ def setbs_case(st, case, wd, res):
     table = {4: 64 * KB, 5: 256 * KB, 6: MB, 7: 4 * MB}
     for x, ln in zip(sizes, lines):
         n, ret, bs, bid = [int(t) for t in ln.split()]
+        want = min(max(x, 32), 4 * MB)
+        if not (ret == bs == want and 4 <= bid <= 7 and table[bid] >= bs and (bid == 4 or table[bid - 1] < bs)):
+            fail(res, "prop_fail", "LZ4IO_setBlockSize(%d) stores blockSize %d with block size ID %d (not the smallest standard size holding it)" % (x, bs, bid), {"size": x}); return
         m = cli.ask("setbs", str(x))
         res["evals"] += 1
         if m != "%d %d %d" % (ret, bs, bid):
             fail(res, "corr_fail", "LZ4IO_setBlockSize(%d): code (ret, blockSize, id) = (%d, %d, %d), model %s" % (x, ret, bs, bid, m), {"size": x}); return
-        want = min(max(x, 32), 4 * MB)
-        if not (ret == bs == want and 4 <= bid <= 7 and table[bid] >= bs and (bid == 4 or table[bid - 1] < bs)):
-            fail(res, "prop_fail", "LZ4IO_setBlockSize(%d) stores blockSize %d with block size ID %d (not the smallest standard size holding it)" % (x, bs, bid), {"size": x}); return
         res["keys"].add("bs%d" % x)
         res["stats"]["setbs_id%d" % bid] += 1
     ids = list(range(0, 12)) + [255, 1 << 31]
